@@ -59,6 +59,16 @@ func Load(dir, goarch string) (*World, error) {
 		Fset:  fset,
 		Tests: false,
 	}
+	if ov := os.Getenv("MIXVET_OVERLAY"); ov != "" {
+		// <original file>=<replacement file>: analyse a single-file variant without copying the tree
+		if i := strings.Index(ov, "="); i > 0 {
+			data, rerr := os.ReadFile(ov[i+1:])
+			if rerr != nil {
+				return nil, fmt.Errorf("overlay: %v", rerr)
+			}
+			cfg.Overlay = map[string][]byte{ov[:i]: data}
+		}
+	}
 	initial, err := packages.Load(cfg, "./...")
 	if err != nil {
 		return nil, fmt.Errorf("packages.Load: %v", err)
